@@ -394,6 +394,24 @@ func initLib() {
 		return v
 	}
 
+	// ---- common.Hash / common.Address: Bytes() is a slice of a copy of the array value
+	for _, tn := range []string{"Hash", "Address"} {
+		libTable["(com.tuntun.rangers/node/src/common."+tn+").Bytes"] = func(vc *VC, fr *Frame, st *State, a []Val, at []types.Type, rt types.Type, pos token.Pos) Val {
+			vc.usedLib("common.Hash/Address.Bytes")
+			arr, ok := at[0].Underlying().(*types.Array)
+			if !ok {
+				return vc.freshVal(st, "bytes", rt)
+			}
+			ref := st.top
+			st.top = vc.define("top", mk(fmt.Sprintf("(+ %s 1)", ref.S), sortRef))
+			comp := vc.arrComp(arr.Elem())
+			h := vc.heapGet(st.heap, comp)
+			vc.heapSet(st, comp, vc.define(comp, tStore(h, ref, a[0].T)))
+			n := vc.idxLit(arr.Len())
+			return Val{T: vc.mkSlice(ref, vc.idxLit(0), n, n)}
+		}
+	}
+
 	// ---- math/bits
 	libTable["math/bits.Add64"] = func(vc *VC, fr *Frame, st *State, a []Val, at []types.Type, rt types.Type, pos token.Pos) Val {
 		vc.usedLib("bits.Add64")
